@@ -338,6 +338,15 @@ func c19Equiv(c *Ctx, asm, pure *load.Program) {
 		f := an.Facts
 		c.R.Decide(!f.IdxFlowsToAddress && len(f.NonConstAddress) == 0, "C19-5", "idx-not-in-address/"+sp.name, pos, fmt.Sprintf("all %d loads are at tbl + constant", len(f.Loads)), fmt.Sprintf("idx influences a memory address (lines %v)", f.NonConstAddress))
 		c.R.Decide(!f.IdxFlowsToFlags, "C19-5", "idx-not-in-branch/"+sp.name, pos, fmt.Sprintf("loop bound is constant (%d iterations)", f.LoopIterations+1), "idx influences a conditional jump")
+		// alignment: Go guarantees only the natural (8-byte) alignment of the table / output types, so an
+		// instruction that faults on a memory operand that is not 16-byte aligned behaves differently from the Go twin
+		{
+			var lines []string
+			for _, a := range f.AlignedAccesses {
+				lines = append(lines, fmt.Sprintf("line %d (%s+%#x)", a.Line, a.Base, a.Off))
+			}
+			c.R.Decide(len(lines) == 0, "C19-4", "alignment/"+sp.name, pos, "no instruction requires more than the 8-byte alignment Go guarantees for the operands (all 128-bit memory accesses are unaligned moves)", "instructions that fault unless their memory operand is 16-byte aligned, which Go does not guarantee for these types: "+strings.Join(lines, ", "))
+		}
 		c.R.Decide(!f.IdxFlowsToGPRStore && len(f.Calls) == 0, "C19-5", "no-call-no-gpr-leak/"+sp.name, pos, "no CALL, idx is never stored", "CALL or store of idx-derived general register")
 		if an.Incomplete != "" {
 			continue
